@@ -9,12 +9,8 @@ func (rt *runtime) cmplEvaluateNodeProgram(node *nodeProgram, eval bool) Value {
 		rt.enterGlobalScope()
 		defer rt.leaveScope()
 	}
-	// The bindings that eval code declares can be deleted, those of a program cannot (10.4.2, 10.5).
-	wasEval := rt.scope.eval
-	rt.scope.eval = eval
 	rt.cmplFunctionDeclaration(node.functionList)
 	rt.cmplVariableDeclaration(node.varList)
-	rt.scope.eval = wasEval
 	if eval {
 		// Eval code may run in the scope of its caller (a direct eval):
 		// the position of that activation is put back afterwards.
